@@ -138,11 +138,15 @@ static void wake_waiters (nsync_dll_list_ to_wake_list, int all_readers) {
 	/* Wake any waiters we didn't manage to enqueue on the mu. */
 	for (p = nsync_dll_first_ (to_wake_list); p != NULL; p = next) {
 		struct nsync_waiter_s *p_nw = DLL_NSYNC_WAITER (p);
+		/* *p_nw may be on the stack of a thread in nsync_wait_n(), which
+		   may return as soon as p_nw->waiting is zero, so p_nw->sem
+		   must be read before the store.  */
+		nsync_semaphore *p_sem = p_nw->sem;
 		next = nsync_dll_next_ (to_wake_list, p);
 		to_wake_list = nsync_dll_remove_ (to_wake_list, p);
 		/* Wake the waiter. */
 		ATM_STORE_REL (&p_nw->waiting, 0); /* release store */
-		nsync_mu_semaphore_v (p_nw->sem);
+		nsync_mu_semaphore_v (p_sem);
 	}
 }
 
@@ -471,18 +475,36 @@ static int cv_enqueue (void *v, struct nsync_waiter_s *nw) {
 static int cv_dequeue (void *v, struct nsync_waiter_s *nw) {
 	nsync_cv *pcv = (nsync_cv *) v;
 	int was_queued = 0;
+	int being_woken = 0;
 	/* acquire spinlock */
 	uint32_t old_word = nsync_spin_test_and_set_ (&pcv->word, CV_SPINLOCK, CV_SPINLOCK, 0);
 	if (ATM_LOAD_ACQ (&nw->waiting) != 0) {
-		pcv->waiters = nsync_dll_remove_ (pcv->waiters, &nw->q);
-		ATM_STORE (&nw->waiting, 0);
-		was_queued = 1;
+		/* *nw has no remove_count, so search for it:  a waker may have
+		   moved it to its private list, but not yet cleared nw->waiting.  */
+		nsync_dll_element_ *p = nsync_dll_first_ (pcv->waiters);
+		while (p != NULL && p != &nw->q) {
+			p = nsync_dll_next_ (pcv->waiters, p);
+		}
+		if (p != NULL) {
+			pcv->waiters = nsync_dll_remove_ (pcv->waiters, &nw->q);
+			ATM_STORE (&nw->waiting, 0);
+			was_queued = 1;
+		} else {
+			being_woken = 1;
+		}
 	}
 	if (nsync_dll_is_empty_ (pcv->waiters)) {
 		old_word &= ~(CV_NON_EMPTY);
 	}
 	/* Release spinlock. */
 	ATM_STORE_REL (&pcv->word, old_word); /* release store */
+	if (being_woken) {
+		/* Wait for the waker to finish with *nw, as nsync_cv_wait_with_deadline() does.  */
+		unsigned attempts = 0;
+		while (ATM_LOAD_ACQ (&nw->waiting) != 0) {
+			attempts = nsync_spin_delay_ (attempts);
+		}
+	}
 	return (was_queued);
 }
 
